@@ -243,6 +243,63 @@ pub fn install_panic_hook() {
 
 pub static LAST_REPO_PANIC: StdMutex<Option<String>> = StdMutex::new(None);
 
+// ---- self-deadlock detector for the engines that run the tower on one (uncontrolled) thread -------------------
+//
+// Engines T, crash and H run a world on a single thread; nothing else touches that world, so the only way a lock
+// acquisition can block there is the thread locking a mutex it already holds (std's Mutex would hang for ever
+// and take the explorer with it). The hook table below turns that into a panic of the step, i.e. a verdict.
+struct SelfLockDetector {
+    held: StdMutex<std::collections::HashMap<std::thread::ThreadId, Vec<usize>>>,
+}
+
+impl teos::verif_sync::Hooks for SelfLockDetector {
+    fn created(&self, _id: usize, _kind: &'static str, _at: &'static std::panic::Location<'static>) {}
+    fn before_lock(&self, id: usize) {
+        let me = std::thread::current().id();
+        let mut g = self.held.lock().unwrap_or_else(|p| p.into_inner());
+        let v = g.entry(me).or_default();
+        if v.contains(&id) {
+            drop(g);
+            panic!("self-deadlock: the thread locks a mutex it already holds (it would wait for itself for ever)");
+        }
+        v.push(id);
+    }
+    fn after_unlock(&self, id: usize) {
+        let me = std::thread::current().id();
+        let mut g = self.held.lock().unwrap_or_else(|p| p.into_inner());
+        if let Some(v) = g.get_mut(&me) {
+            if let Some(pos) = v.iter().rposition(|x| *x == id) {
+                v.remove(pos);
+            }
+        }
+    }
+    fn wait(&self, _condvar: usize, _mutex: usize) {
+        panic!("blocked for ever: a condition is waited for on the only thread there is");
+    }
+    fn notify(&self, _condvar: usize, _all: bool) {}
+    fn atomic(&self, _id: usize, _store: bool) {}
+}
+
+thread_local! {
+    static DETECTOR_ON: std::cell::Cell<bool> = const { std::cell::Cell::new(false) };
+}
+
+/// (Re)installs the detector on the calling thread unless the thread runs under the controlled scheduler.
+pub fn ensure_self_lock_detector() {
+    if crate::sched::is_controlled_thread() {
+        return;
+    }
+    if !DETECTOR_ON.with(|d| d.get()) {
+        teos::verif_sync::set_thread_hooks(Some(Arc::new(SelfLockDetector { held: StdMutex::new(Default::default()) })));
+        DETECTOR_ON.with(|d| d.set(true));
+    }
+}
+
+/// The scheduler's set-up phase replaces and then removes the thread's hook table.
+pub fn self_lock_detector_removed() {
+    DETECTOR_ON.with(|d| d.set(false));
+}
+
 pub fn take_panic_location() -> String {
     LAST_PANIC_LOCATION
         .try_with(|l| l.borrow_mut().take())
@@ -268,6 +325,7 @@ impl World {
     }
 
     pub fn boot(&mut self) -> Result<(), String> {
+        ensure_self_lock_detector();
         self.tower = None;
         let env = self.env.clone();
         let path = self.db.path.clone();
@@ -355,6 +413,7 @@ impl World {
 
     /// Applies one event. Panics inside the tower are caught and reported in the observation.
     pub fn apply(&mut self, ev: &Ev) -> StepObs {
+        ensure_self_lock_detector();
         let db_before = self.db_view();
         let mut obs = StepObs {
             ev: ev.clone(),
